@@ -24,7 +24,7 @@ impl Prop for C06 {
         "C06"
     }
     fn rule_text(&self) -> String {
-        "case = 1-3 one-shot keys (all end variants; payload key / output chord / layer-while-held) + 2 plain keys on 2 layers, T in {1,2,10,100}, rapid-event-delay in {0,1,5}; structured schedules with gaps from {0,1,2,T-1,T,T+1,...}: expire (exact tick), next-key (press / release variants), held, stacked, re-press (pcancel vs restart), overflow (17-20 stacked one-shots). non-trivial = the one-shot payload went down; distinct = config x schedule hash.".into()
+        "case = 1-3 one-shot keys (all end variants; payload key / output chord / layer-while-held) + 2 plain keys + 1 custom-action key (mouse button / message / unicode) on 2 layers, T in {1,2,10,100}, rapid-event-delay in {0,1,5}; structured schedules with gaps from {0,1,2,T-1,T,T+1,...}: expire (exact tick), next-key (press / release variants), held, stacked, re-press (pcancel vs restart), overflow (17-20 stacked one-shots). non-trivial = the one-shot payload went down; distinct = config x schedule hash.".into()
     }
     fn runs(&self, tier: Tier) -> u64 {
         match tier {
@@ -71,9 +71,13 @@ impl Prop for C06 {
             case.ops = ops;
         } else {
             let p2 = "lalt";
+            // e: a key whose action is a custom action only (no keycode of its own): it is a
+            // following key like any other
+            let custom = *r.pick(&["mlft", "(push-msg hi)", "(unicode x)", "mrgt"]);
             case.cfg = format!(
-                "(defcfg rapid-event-delay {red})\n(defsrc a b c d)\n(deflayer l0 ({v} {t} {p}) 1 2 ({v} {t} {p2}))\n(deflayer l1 _ 3 4 _)\n"
+                "(defcfg rapid-event-delay {red})\n(defsrc a b c d e)\n(deflayer l0 ({v} {t} {p}) 1 2 ({v} {t} {p2}) {custom})\n(deflayer l1 _ 3 4 _ _)\n"
             );
+            let e_key = oscode_of("e");
             let grid = |r: &mut Rng| -> u32 { *r.pick(&[0u64, 1, 1, 2, 3, t.saturating_sub(1), t, t + 1, red, red + 1, 7]) as u32 };
             let settle = (t + 40) as u32;
             let mut ops = vec![];
@@ -140,7 +144,25 @@ impl Prop for C06 {
                     let mut must_not: Vec<usize> = vec![];
                     let after_end = (red + 4) as u32;
                     for _ in 0..n {
-                        match r.pick_w(&[30, 30, 25, if is_pcancel(v) { 0 } else { 25 }]) {
+                        match r.pick_w(&[30, 30, 25, if is_pcancel(v) { 0 } else { 25 }, 25]) {
+                            4 => {
+                                // the first following key is a custom-action key (mouse button,
+                                // message, unicode): it uses the one-shot up like any other key, so
+                                // the key after it is plain
+                                ops.push(Op::Press(a));
+                                ops.push(Op::Gap(2));
+                                ops.push(Op::Release(a));
+                                ops.push(Op::Gap(r.range(2, 4) as u32));
+                                ops.push(Op::Press(e_key));
+                                ops.push(Op::Gap(3));
+                                ops.push(Op::Release(e_key));
+                                ops.push(Op::Gap(r.range(2, 4) as u32));
+                                must_not.push(ops.len());
+                                ops.push(Op::Press(c));
+                                ops.push(Op::Gap(3));
+                                ops.push(Op::Release(c));
+                                ops.push(Op::Gap(after_end));
+                            }
                             3 => {
                                 // the one-shot key is tapped, then pressed again and HELD while the
                                 // one-shot is still active: as long as it is held it acts as the plain
